@@ -93,6 +93,23 @@ theorem retry_terminates (cfg : Cfg) (hrs : 0 < cfg.recvsize) (op : Op) (hdet : 
   rw [h1]
   exact ⟨spec_ne_timeout op hdet _, spec_ne_fuel op hdet _⟩
 
+/-- model adequacy: the fuel the entry points pass is always enough — no single call ever ends in
+    the artificial `Res.fuel` outcome -/
+theorem attempt_never_out_of_fuel (cfg : Cfg) (hrs : 0 < cfg.recvsize) (op : Op) (st : St) :
+    (attempt cfg op st).1 ≠ .fuel := by
+  by_cases hdet : op.deterministic = true
+  · rcases attempt_ok cfg hrs op hdet st with ⟨a, _, _⟩ | ⟨_, b, _, _⟩
+    · rw [a]; simp
+    · have h1 : (attempt cfg op st).1 = (spec op st.view).1 := congrArg Prod.fst b
+      rw [h1]
+      exact spec_ne_fuel op hdet _
+  · cases op with
+    | recv n =>
+      rcases recv_ok cfg hrs n st with ⟨a, _, _⟩ | ⟨v, a, _⟩
+      · simp only [attempt]; rw [a]; simp
+      · simp only [attempt]; rw [a]; simp
+    | _ => simp [Op.deterministic] at hdet
+
 /-! what the whole-stream specification of recv_until says (so that "equal to the spec" means
     something): the value ends at the first occurrence of the delimiter that lies inside the first
     `maxsize` bytes; MessageTooLong / ConnectionClosed only when there is no such occurrence -/
